@@ -66,7 +66,11 @@ func hexOrDash(b []byte) string {
 
 // DescribeTx renders one transaction in the line-protocol form
 // `txid kind pver nonce nin {t:i} nout {addr:value:W<h>|R<h>|-} nph {h} npd {hex}`.
-func (n *Node) DescribeTx(tx interfaces.Transaction) string {
+func (n *Node) DescribeTx(tx interfaces.Transaction) string { return n.describeTx(tx, -1) }
+
+// describeTx: height is the height of the containing block (-1: none). A coinbase whose lock time is not
+// its block's height (a coinbase copied from another block) carries the lock time as its one pdata.
+func (n *Node) describeTx(tx interfaces.Transaction, height int64) string {
 	var sb strings.Builder
 	nonce := "-"
 	for _, a := range tx.Attributes() {
@@ -110,6 +114,10 @@ func (n *Node) DescribeTx(tx interfaces.Transaction) string {
 		pd = append(pd, hexOrDash(pl.Signature))
 	case *payload.Record:
 		pd = append(pd, hexOrDash(pl.Content))
+	case *payload.CoinBase:
+		if height >= 0 && int64(tx.LockTime()) != height {
+			pd = append(pd, fmt.Sprintf("%08x", tx.LockTime()))
+		}
 	case *payload.CRCProposal:
 		ph = append(ph, ID(pl.DraftHash))
 		pd = append(pd, hexOrDash(pl.DraftData))
@@ -136,7 +144,7 @@ func (n *Node) Describe(b *types.Block) string {
 	var sb strings.Builder
 	fmt.Fprintf(&sb, "%s %s %d %d", ID(b.Hash()), ID(b.Header.Previous), b.Height, len(b.Transactions))
 	for _, tx := range b.Transactions {
-		sb.WriteString(" " + n.DescribeTx(tx))
+		sb.WriteString(" " + n.describeTx(tx, int64(b.Height)))
 	}
 	return sb.String()
 }
